@@ -1136,4 +1136,129 @@ theorem group_partition_perm {rows rows' : List Pattern.Row} (hp : rows.Perm row
 
 end PatternPerm
 
+/-! ## list histories: every row order the library's list operations produce is a permutation -/
+
+section Histories
+open Reamber.Analysis
+open Reamber.Timing (isort insertBy)
+
+/-- **list histories**: the ways client code (and the library itself) arrives at a list with some row order -
+the shapes the correspondence check generates (`build_list` / `build_history` in harness/props/c15.py) -/
+inductive Hist (α : Type) where
+  /-- `Cls(items)` -/
+  | construct (rows : List α)
+  /-- `lst.append(item)` (sort=False) -/
+  | appendItem (h : Hist α) (x : α)
+  /-- `a.append(b)` (sort=False): concatenation -/
+  | concat (a b : Hist α)
+  /-- `lst.sorted(reverse)` -/
+  | sorted (h : Hist α) (reverse : Bool)
+  /-- `lst[::-1]` -/
+  | reverseSlice (h : Hist α)
+  /-- `lst[k:].append(lst[:k])` -/
+  | rotate (h : Hist α) (k : Nat)
+  /-- `lst[mask].append(lst[~mask])`; with `mask = offset > t`: `lst.after(t).append(lst.before(t, include_end=True))` -/
+  | maskReappend (h : Hist α) (mask : α → Bool)
+  /-- `deepcopy`, `m.x = lst; m.x`, `Cls(lst)`, `lst[:]`: the same rows in the same order -/
+  | handOn (h : Hist α)
+
+/-- the rows that were put into the list, in the order of a plain left-to-right construction -/
+def Hist.items {α} : Hist α → List α
+  | .construct rows => rows
+  | .appendItem h x => h.items ++ [x]
+  | .concat a b => a.items ++ b.items
+  | .sorted h _ => h.items
+  | .reverseSlice h => h.items
+  | .rotate h _ => h.items
+  | .maskReappend h _ => h.items
+  | .handOn h => h.items
+
+/-- the row order the history ends with (`key` = the offset column; `sorted` is the stable insertion sort, its
+reverse for `reverse=True`) -/
+def Hist.run {α} (key : α → Rat) : Hist α → List α
+  | .construct rows => rows
+  | .appendItem h x => h.run key ++ [x]
+  | .concat a b => a.run key ++ b.run key
+  | .sorted h rev =>
+      let s := isort (fun a b => decide (key a ≤ key b)) (h.run key)
+      if rev then s.reverse else s
+  | .reverseSlice h => (h.run key).reverse
+  | .rotate h k => (h.run key).drop k ++ (h.run key).take k
+  | .maskReappend h m => (h.run key).filter m ++ (h.run key).filter (fun a => !m a)
+  | .handOn h => h.run key
+
+theorem isortT_perm {α} (le : α → α → Bool) (l : List α) : (isort le l).Perm l := by
+  induction l with
+  | nil => exact List.Perm.refl _
+  | cons a t ih =>
+    have hins : ∀ (s : List α), (insertBy le a s).Perm (a :: s) := by
+      intro s
+      induction s with
+      | nil => exact List.Perm.refl _
+      | cons b u ihu =>
+        simp only [insertBy]
+        split
+        · exact List.Perm.refl _
+        · exact ((List.Perm.cons b ihu).trans (List.Perm.swap a b u))
+    simp only [isort, List.foldr_cons]
+    exact (hins _).trans (List.Perm.cons a ih)
+
+/-- **every history ends with a permutation of the rows that were put in** -/
+theorem hist_perm {α} (key : α → Rat) (h : Hist α) : (h.run key).Perm h.items := by
+  induction h with
+  | construct rows => exact List.Perm.refl _
+  | appendItem h x ih => exact List.Perm.append ih (List.Perm.refl _)
+  | concat a b iha ihb => exact List.Perm.append iha ihb
+  | sorted h rev ih =>
+    simp only [Hist.run, Hist.items]
+    split
+    · exact (List.reverse_perm _).trans ((isortT_perm _ _).trans ih)
+    · exact (isortT_perm _ _).trans ih
+  | reverseSlice h ih => exact (List.reverse_perm _).trans ih
+  | rotate h k ih =>
+    simp only [Hist.run, Hist.items]
+    exact (List.perm_append_comm.trans (List.take_append_drop k _ ▸ List.Perm.refl _)).trans ih
+  | maskReappend h m ih =>
+    simp only [Hist.run, Hist.items]
+    exact (List.filter_append_perm m _).trans ih
+  | handOn h ih => exact ih
+
+/-- dominant bpm over histories: whatever history the tempo list went through, the dominant bpm is that of the
+plainly constructed list of the same tempo points -/
+theorem dominant_bpm_hist (h : Hist Tp) (L : Rat) (ht : TiesEqual (fun p : Tp => p.time) h.items) :
+    dominantBpm (h.run (fun p => p.time)) L = dominantBpm h.items L :=
+  (dominant_bpm_perm L ht (hist_perm _ h).symm).symm
+
+
+/-- scroll speed over histories of the tempo list and of the SV list -/
+theorem scroll_speed_hist (hasSv : Bool) (hb : Hist Tp) (hv : Hist Sv) (omin omax : Rat) (ov : Option Rat)
+    (ht : TiesEqual (fun p : Tp => p.time) hb.items) (hs : TiesEqual (fun s : Sv => s.time) hv.items) :
+    scrollSpeed hasSv (hb.run (fun p => p.time)) (hv.run (fun s => s.time)) omin omax ov =
+      scrollSpeed hasSv hb.items hv.items omin omax ov :=
+  (scroll_speed_perm hasSv omin omax ov ht hs (hist_perm _ hb).symm (hist_perm _ hv).symm).symm
+
+/-- SV normalisation over histories of the tempo list -/
+theorem sv_normalize_hist (h : Hist Tp) (L : Rat) (ov : Option Rat) (ht : TiesEqual (fun p : Tp => p.time) h.items) :
+    OptSameRows (svNormalize h.items L ov) (svNormalize (h.run (fun p => p.time)) L ov) :=
+  sv_normalize_perm L ov ht (hist_perm _ h).symm
+
+/-- full-LN generation over histories of the hit list and of the hold list -/
+theorem full_ln_hist {α} (sortF sortF' : List FullLN.Row → List FullLN.Row) (hs : FullLN.SortsByOffset sortF)
+    (hs' : FullLN.SortsByOffset sortF') (gap thr : Rat) (hh hl : Hist FullLN.Row) (extras : List FullLN.Row) (others : α)
+    (ht : TiesEqual FullLN.key (FullLN.stacked (⟨extras, hh.items, hl.items, others⟩ : FullLN.MapM α))) :
+    (FullLN.fullLnWith sortF gap thr (⟨extras, hh.items, hl.items, others⟩ : FullLN.MapM α)).hits =
+      (FullLN.fullLnWith sortF' gap thr ⟨extras, hh.run (·.offset), hl.run (·.offset), others⟩).hits ∧
+    (FullLN.fullLnWith sortF gap thr (⟨extras, hh.items, hl.items, others⟩ : FullLN.MapM α)).holds =
+      (FullLN.fullLnWith sortF' gap thr ⟨extras, hh.run (·.offset), hl.run (·.offset), others⟩).holds := by
+  have h := full_ln_perm sortF sortF' hs hs' gap thr (⟨extras, hh.items, hl.items, others⟩ : FullLN.MapM α)
+    ⟨extras, hh.run (·.offset), hl.run (·.offset), others⟩ (hist_perm _ hh).symm (hist_perm _ hl).symm ht
+  exact ⟨h.1, h.2.1⟩
+
+/-- the history of the seeded change C15-F: two sections, each sorted, then concatenated - interleaved rows -/
+example : (Hist.concat (.sorted (.construct [(⟨0, 120⟩ : Tp), ⟨20000, 150⟩]) false)
+                       (.sorted (.construct [⟨12000, 90⟩, ⟨5000, 200⟩]) false)).run (fun p => p.time)
+    = [⟨0, 120⟩, ⟨20000, 150⟩, ⟨5000, 200⟩, ⟨12000, 90⟩] := by decide +kernel
+
+end Histories
+
 end Reamber.PermInv
